@@ -75,6 +75,14 @@ func check(c sim.ChainCase) error {
 	rec := stats.G()
 	probes := 0
 	hooks := sim.Hooks{
+		// history invariant on every accepted block: nothing is resolved by two mechanisms of one block
+		// (proof + supplement expiry, two v2 resolutions) and every payout family is created at most once
+		AfterApply: func(ch *sim.Chain, st *sim.Step, parent consensus.State, au consensus.ApplyUpdate) error {
+			if err := sim.SingleResolution(*st.Block, *st.Supp, au); err != nil {
+				return stats.Failf("C02/single-resolution", "accepted block at height %d: %v", ch.Height(), err)
+			}
+			return nil
+		},
 		Probe: func(ch *sim.Chain, st *sim.Step) error {
 			err := consensus.ValidateBlock(ch.Tip(), *st.Block, *st.Supp)
 			id := st.Block.ID()
